@@ -43,7 +43,8 @@ CFG = dict(
     casesv=c19_casesv,
     rule=("every script of <= 3 calls over an 8-symbol alphabet of (Write|WriteString, n, reported, err) plus every 4-call script over "
           "4 symbols (thorough: <= 4 calls over 10 symbols), each with 4 wrapped-writer kinds (io.Writer only / + io.StringWriter, "
-          "gated / free-running) x 4 consumer kinds (absent until Close, fast, slow one-at-a-time with abandoned receives, late); "
+          "gated / free-running) x 5 consumer kinds (absent until Close, fast, slow one-at-a-time with abandoned receives, late, and the "
+          "forced schedule 'first update delivered, then busy until Close' confirmed by observation); "
           "plus seeded random scripts of 1-40 calls with counts up to 65535; non-trivial = distinct case lines "
           "(script + observed sizes + received sequence)"),
     trusted_base=[HARNESS_TB, EXTRACT_TB,
@@ -60,7 +61,7 @@ CFG["manifest"] = dict(
     text=("Proof: Coq theorems C19_size / C19_received_monotone / C19_never_blocks / C19_select_faithful / C19_close / C19_after_close / "
           "C19_close_needs_receiver / C19_deliveries_need_waiting / C19_progress hold for every script, every consumer behaviour and "
           "every interleaving of the writer/consumer LTS (invariant over label sequences). Tie: the real ProgressWriter is driven with "
-          "scripted wrapped writers (short, failing, StringWriter or not, gated) and four consumer behaviours under the race detector; "
+          "scripted wrapped writers (short, failing with bytes written, StringWriter or not, gated) and five consumer behaviours under the race detector; "
           "each observed history (Size() after every call, received sequence, closed) is judged by the extracted specification and "
           "replayed as a run of the model."),
     note=("Trusted: Coq kernel; the reading of Go channel semantics in Model/Progress.v; extraction + OCaml glue (cross-checked by "
